@@ -89,9 +89,9 @@ func main() {
 	}
 	only := os.Getenv("C06_ONLY") // debugging aid: "A" or "B" runs one engine only
 	if cfg.Shard == "" && cfg.Replay == "" && only != "B" {
-		// (A): soft time boxes of the history searches (quick: 60 + 25 s of the 150 s wall budget;
+		// (A): soft time boxes of the history searches (quick: 75 + 25 s of the 150 s wall budget;
 		// thorough: 12 + 5 of the 25 minutes); (B) gets the rest of cfg.Deadline()
-		box1, box2 := 60*time.Second, 85*time.Second
+		box1, box2 := 75*time.Second, 100*time.Second
 		d1, d2 := 6, 6
 		if cfg.Thorough() {
 			box1, box2 = 12*time.Minute, 17*time.Minute
